@@ -695,7 +695,35 @@ pub fn check(_ctx: &Ctx, input: &Input) -> CaseResult {
     if d.funcs.len() != 1 {
         return Err(Failure::new("function-count", format!("{} functions emitted", d.funcs.len())));
     }
-    let f = &d.funcs[0];
+    let mut f = d.funcs[0].clone();
+    // an emitter is free to leave out the `else` of an empty alternative:
+    // give every `if` an explicit `else` before comparing with the model
+    {
+        let mut out: Vec<crate::ops::Op> = Vec::with_capacity(f.ops.len());
+        let mut stack: Vec<(bool, bool)> = Vec::new(); // (is_if, saw_else)
+        for o in f.ops.iter() {
+            match o.name {
+                "Block" | "Loop" => stack.push((false, false)),
+                "If" => stack.push((true, false)),
+                "Else" => {
+                    if let Some(t) = stack.last_mut() {
+                        t.1 = true;
+                    }
+                }
+                "End" => {
+                    if let Some((true, false)) = stack.pop() {
+                        let mut e = o.clone();
+                        e.name = "Else";
+                        out.push(e);
+                    }
+                }
+                _ => {}
+            }
+            out.push(o.clone());
+        }
+        f.ops = out;
+    }
+    let f = &f;
     let np = case.n_params as u32;
     let mut lmap: HashMap<usize, u32> = HashMap::new();
     let mut lrev: HashMap<u32, usize> = HashMap::new();
